@@ -178,6 +178,16 @@ def part_bw(pid):
     return run
 
 
+def part_cform(pid):
+    def run(ctx):
+        from . import rules_cform
+        n = rules_cform.check(ctx, module("release", "ssa"), "release", [pid])
+        ctx.explanation += ("R-CFORM: the value a function stores is evaluated exactly as an expression DAG over opaque leaves (_ipow(7,e) = 7^e, a callee's "
+                            "out-value, a bit field) for the whole finite domain of those leaves and compared with the documented closed form. ")
+        ctx.floor("R-CFORM", "closed-form instances for %s" % pid, n, 1)
+    return run
+
+
 def part_fmt(ctx):
     from . import rules_fmt
     n = rules_fmt.check(ctx, module("release", "ssa"), "release")
@@ -198,17 +208,17 @@ def part_ret(ctx):
 PARTS = {
     "C01": [part_guards("C01"), part_tables(["T7"], {"T7": ["isBaseCellPentagonArr"]}), part_wit("C01")],
     "C02": [part_guards("C02"), part_tables(["T6", "T16"]), part_wit("C02")],
-    "C03": [part_guards("C03"), part_tables(["T7", "T4", "T5", "T9"], {"T7": ["pentagonCount", "res0CellCount", "getRes0Cells", "getPentagons", "baseCellNeighbors:rows", "baseCellNeighbor60CCWRots:rows"]}), part_wit("C03")],
-    "C04": [part_guards("C04"), part_wit("C04")],
-    "C05": [part_guards("C05"), part_tables(["T1", "T2", "T3", "T10", "T11", "T7"], {"T7": ["baseCellNeighbors", "baseCellNeighbor60CCWRots"]}), part_wit("C05")],
+    "C03": [part_guards("C03"), part_tables(["T7", "T4", "T5", "T9"], {"T7": ["pentagonCount", "res0CellCount", "getRes0Cells", "getPentagons", "baseCellNeighbors:rows", "baseCellNeighbor60CCWRots:rows"]}), part_cform("C03"), part_wit("C03")],
+    "C04": [part_guards("C04"), part_cform("C04"), part_wit("C04")],
+    "C05": [part_guards("C05"), part_tables(["T1", "T2", "T3", "T10", "T11", "T7"], {"T7": ["baseCellNeighbors", "baseCellNeighbor60CCWRots"]}), part_cform("C05"), part_wit("C05")],
     "C06": [part_guards("C06"), part_bw("C06")],
-    "C08": [part_tables(["T5", "T9", "T13"]), part_wit("C08")],
+    "C08": [part_tables(["T5", "T9", "T13"]), part_cform("C08"), part_wit("C08")],
     "C09": [part_guards("C09"), part_tables(["T1", "T2", "T3", "T10", "T14"]), part_wit("C09")],
-    "C10": [part_guards("C10"), part_tables(["T8", "T12"]), part_wit("C10")],
+    "C10": [part_guards("C10"), part_tables(["T8", "T12"]), part_cform("C10"), part_wit("C10")],
     "C11": [part_guards("C11"), part_tables(["T8", "T12", "T7"], {"T7": ["pentagonDirectionFaces"]}), part_wit("C11")],
-    "C12": [part_guards("C12"), part_ret, part_wit("C12")],
-    "C13": [part_guards("C13"), part_wit("C13")], "C14": [part_guards("C14"), part_bw("C14")], "C15": [part_guards("C15"), part_bw("C15"), part_wit("C15")],
-    "C19": [part_tables(["T5", "T9"]), part_bw("C19"), part_wit("C19")],
+    "C12": [part_guards("C12"), part_ret, part_cform("C12"), part_wit("C12")],
+    "C13": [part_guards("C13"), part_cform("C13"), part_wit("C13")], "C14": [part_guards("C14"), part_bw("C14"), part_cform("C14")], "C15": [part_guards("C15"), part_bw("C15"), part_wit("C15")],
+    "C19": [part_tables(["T5", "T9"]), part_bw("C19"), part_cform("C19"), part_wit("C19")],
     "C20": [part_guards("C20"), part_fmt, part_wit("C20")],
 }
 
